@@ -61,7 +61,7 @@ def verus_version():
 
 # --------------------------------------------------------------------------- build
 
-def build(vacuity=False, unit='core', split=None, tag=''):
+def build(vacuity=False, unit='core', split=None, tag='', isolate=()):
     ex = X.extract(REPO)
     spec = ''.join('//@@SPECFILE %s\n' % os.path.relpath(p, ROOT) + open(p).read() + '\n'
                    for p in sorted(glob.glob(os.path.join(ROOT, 'spec', '*.rs'))))
@@ -73,7 +73,7 @@ def build(vacuity=False, unit='core', split=None, tag=''):
         raise Undecided('spec/noise_patterns.txt: %s' % e)
     vspecs = [('spec/noise_patterns.txt(generated)', pat_vspec)]
     vspecs += [(os.path.relpath(p, ROOT), open(p).read()) for p in sorted(glob.glob(os.path.join(ROOT, 'contracts', '*.vspec')))]
-    woven, info = W.weave(src, vspecs, vacuity=vacuity, split=split)
+    woven, info = W.weave(src, vspecs, vacuity=vacuity, split=split, isolate=isolate)
     if vacuity:
         woven = lemma_vacuity_probes(woven, info)
     os.makedirs(BUILD, exist_ok=True)
@@ -118,7 +118,7 @@ WRAPPER_CFG = ['--cfg', 'feature="use-curve25519"', '--cfg', 'feature="use-chach
                '--cfg', 'feature="use-sha2"', '--cfg', 'feature="use-blake2"', '--cfg', 'feature="p256"']
 
 
-def build_wrappers(vacuity=False):
+def build_wrappers(vacuity=False, isolate=()):
     """R16: the second verification unit (resolvers/default.rs against assumed dependency contracts)"""
     ex = X.extract_wrappers(REPO, ROOT)
     spec = '//@@SPECFILE spec/00_prims.rs\n' + open(os.path.join(ROOT, 'spec', '00_prims.rs')).read() + '\n'
@@ -126,14 +126,14 @@ def build_wrappers(vacuity=False):
     src = ex.text.replace('//@SPEC-MODULES@', spec).replace('//@DEPS@', deps)
     vspecs = [(os.path.join('contracts', f), open(os.path.join(ROOT, 'contracts', f)).read()) for f in WRAPPER_SHARED]
     vspecs += [(os.path.relpath(p, ROOT), open(p).read()) for p in sorted(glob.glob(os.path.join(ROOT, 'contracts', 'wrappers', '*.vspec')))]
-    woven, info = W.weave(src, vspecs, vacuity=vacuity)
+    woven, info = W.weave(src, vspecs, vacuity=vacuity, isolate=isolate)
     os.makedirs(BUILD, exist_ok=True)
     path = os.path.join(BUILD, 'snow_wrappers%s.rs' % ('_vacuity' if vacuity else ''))
     open(path, 'w').write(woven)
     return ex, woven, info, path
 
 
-def build_parser(vacuity=False):
+def build_parser(vacuity=False, isolate=()):
     """R19p: the third verification unit (protocol-name parser against the Noise name grammar)"""
     ex = X.extract_parser(REPO)
     import gen_patterns as G
@@ -147,7 +147,7 @@ def build_parser(vacuity=False):
     src = ex.text.replace('//@SPEC-MODULES@', spec)
     vspecs = [(os.path.join('contracts', '00_error.vspec'), open(os.path.join(ROOT, 'contracts', '00_error.vspec')).read())]
     vspecs += [(os.path.relpath(p, ROOT), open(p).read()) for p in sorted(glob.glob(os.path.join(ROOT, 'contracts', 'parser', '*.vspec')))]
-    woven, info = W.weave(src, vspecs, vacuity=vacuity)
+    woven, info = W.weave(src, vspecs, vacuity=vacuity, isolate=isolate)
     if vacuity:
         woven = lemma_vacuity_probes(woven, info)
     os.makedirs(BUILD, exist_ok=True)
@@ -388,20 +388,43 @@ def _fn_verus_args(fnid):
     return ['--verify-only-module', '::'.join(parts[:k]), '--verify-function', '::'.join(parts[k:])]
 
 
+class Rejected(Undecided):
+    def __init__(self, msg, info):
+        Undecided.__init__(self, msg)
+        self.info = info
+
+
 def collect_unit(unit, vacuity=False):
+    """one verification unit.  If Verus rejects the woven text (type error) and proof anchors were lost while weaving, the
+    functions that lost an anchor are isolated (contract kept, body left out of this run - they count as NOT verified)
+    and the unit is verified again, so that one disturbed function does not make every other function undecided."""
+    try:
+        return _collect_unit_once(unit, vacuity, ())
+    except Rejected as r:
+        contracted = {fe['id'] for fe in r.info.get('fn_entries', []) if fe.get('has_body')}
+        lost = sorted({h['fn'] for h in r.info.get('lost_hints', [])} | (set(r.info.get('rejected_in', [])) & contracted))
+        if not lost:
+            raise
+        res = _collect_unit_once(unit, vacuity, tuple(lost))
+        res['isolated'] = lost
+        return res
+
+
+def _collect_unit_once(unit, vacuity, isolate):
     variants = []
     if unit['build'] == 'core':
         # path-split verification (contracts may declare `@split` cases for functions with large loop bodies):
         # main run = every declared case cut by assume(false); one extra run per case with only that case enabled
-        ex, woven, info, path = build(vacuity=vacuity, split=('*', '*'))
+        ex, woven, info, path = build(vacuity=vacuity, split=('*', '*'), isolate=isolate)
         if not vacuity:
             for fnid, cases in sorted(info.get('splits', {}).items()):
                 for case in cases:
-                    variants.append((fnid, case))
+                    if fnid not in isolate:
+                        variants.append((fnid, case))
     elif unit['build'] == 'parser':
-        ex, woven, info, path = build_parser(vacuity=vacuity)
+        ex, woven, info, path = build_parser(vacuity=vacuity, isolate=isolate)
     else:
-        ex, woven, info, path = build_wrappers(vacuity=vacuity)
+        ex, woven, info, path = build_wrappers(vacuity=vacuity, isolate=isolate)
     model = Model(woven, info)
     model.unit = unit
     import concurrent.futures
@@ -409,7 +432,7 @@ def collect_unit(unit, vacuity=False):
     def run_variant(fc):
         fnid, case = fc
         tag = '__%s__%s' % (re.sub(r'\W+', '_', fnid), case)
-        ex2, woven2, info2, path2 = build(vacuity=False, split=(fnid, case), tag=tag)
+        ex2, woven2, info2, path2 = build(vacuity=False, split=(fnid, case), tag=tag, isolate=isolate)
         m2 = Model(woven2, info2)
         m2.unit = unit
         out2, diags2, hit2, wall2 = run_verus(path2, woven2, extra=unit['flags'] + _fn_verus_args(fnid) + ['--num-threads', '2'])
@@ -419,10 +442,13 @@ def collect_unit(unit, vacuity=False):
         out, diags, hit, wall = run_verus(path, woven, extra=unit['flags'])
         vresults = [f.result() for f in futs]
     vr = out.get('verification-results', {})
-    if vr.get('encountered-vir-error') or ('verified' not in vr):
+    if vr.get('encountered-vir-error') or ('verified' not in vr) or (vr.get('encountered-error') and not vr.get('errors')):
         # rustc / VIR level failure: the text did not type-check -> undecided
         errs = [d.get('rendered', d.get('message', '')) for d in diags if d.get('level') == 'error']
-        raise Undecided('verus rejected the woven text of unit %s before verification (type error / unsupported construct):\n' % unit['name'] + '\n'.join(errs)[:3000])
+        # the contracted functions the compile errors point into (candidates for isolation)
+        info['rejected_in'] = sorted({f for f in (model.fn_at(sp.get('line_start', 0)) for d in diags if d.get('level') == 'error'
+                                                   for sp in d.get('spans', []) if os.path.basename(sp.get('file_name', '')) == os.path.basename(path)) if f})
+        raise Rejected('verus rejected the woven text of unit %s before verification (type error / unsupported construct):\n' % unit['name'] + '\n'.join(errs)[:3000], info)
     pre = unit['prefixes']
     funcs = {}
     for m in out.get('times-ms', {}).get('smt', {}).get('smt-run-module-times', []):
@@ -557,7 +583,7 @@ TRUST_PATTERNS = [('assume', r'\bassume\s*\('), ('admit', r'\badmit\s*\(\s*\)'),
 def trusted_scan(model):
     found = []
     for i, l in enumerate(model.lines, 1):
-        if '//@@SPLIT-CUT' in l:
+        if '//@@SPLIT-CUT' in l or '@@ISOLATED' in l:
             continue          # framework-inserted path cut: that path is verified in its own split variant
         code = l.split('//')[0]
         for kind, pat in TRUST_PATTERNS:
@@ -628,7 +654,8 @@ def check_property(pid, tier, res=None, vres=None, quiet=False):
     # every function carrying one of my obligations must really have been verified by Verus
     missing = sorted({k[0] for k in mine if k[0] not in res['funcs']})
     if missing:
-        raise Undecided('functions under contract were not verified by Verus (external / lost?): %s' % ', '.join(missing))
+        iso = sorted({f for u in res['units'] for f in u.get('isolated', [])})
+        raise Undecided('functions under contract were not verified by Verus (external / lost?): %s%s' % (', '.join(missing), ('  [isolated after a lost proof anchor: %s]' % ', '.join(iso)) if iso else ''))
     # direct failures
     failed = {}
     resource = []
